@@ -27,13 +27,15 @@ RULE = ("one case = backend (every class in storage_registry) x geometry (full r
         "mask_linear, has_index/get_from_index over all linear indices, out-of-range and wrong-rank keys, persist, reopen "
         "(new instance on the same folder; for dict backends only the last persisted snapshot survives; optionally after "
         "a simulated process exit that kills manager processes), worker handle (pickled copy dumps; visible to the parent "
-        "iff dump_in_subprocess); in half of the cases file modification times come from a virtual coarse clock "
+        "iff dump_in_subprocess), crash = process death before file-system event k of a dump or a persist (optionally tearing the write) followed by a "
+        "restart that must find every element old or new; a quarter of the cases name the folder by a relative path and move the working directory "
+        "(chdir) between operations; in half of the cases file modification times come from a virtual coarse clock "
         "(0/1 tick per write) so that quick rewrites share a timestamp. distinct_nontrivial = distinct (backend, geometry, history) digests with at least one "
         "dump and one read")
 COMPONENTS = {
     "real": ["FileArray / DictArray / SharedMemoryDictArray (all public methods)", "normalize_key, select_by_mask, "
              "shape_to_strides", "cloudpickle files on tmpfs", "FileArray's reader thread pool"],
-    "stub": ["multiprocessing.Manager", "process exit between persist and reopen", "worker process (pickled copy)",
+    "stub": ["multiprocessing.Manager", "process exit between persist and reopen", "process death inside dump/persist (SimCrash at file-system seams, torn writes)", "worker process (pickled copy)",
              "file modification times (virtual coarse clock advanced 0/1 per write by the tape)"],
     "not_run": ["zarr backends (not importable in this image)"],
 }
